@@ -5,7 +5,7 @@
  * for a partial hypothesis / segmentation / lattice / alignment after a chunk.  Real front end, real
  * scorer, channel normalisation set to a fixed vector before every utterance.  DESIGN.md H8.
  *
- * usage: mc_chunk --audio 0..3 --gram 0..1 --dev K [--menu full|small] [--subsets 1] [--firstcut 1] [--shard i/n] [--case "<plan>"]
+ * usage: mc_chunk --audio 0..3 --gram 0..1 --dev K [--menu full|small|frames] [--subsets 1] [--firstcut 1] [--uniform 1] [--shard i/n] [--case "<plan>"]
  */
 #include "../engine/mc.h"
 #include <soundswallower/acmod.h>
@@ -66,6 +66,7 @@ typedef struct {
     int ncut;
     size_t cut[MAXCH]; /* ascending sample offsets in (0, N) */
     unsigned char nosearch[MAXCH + 1], isfloat[MAXCH + 1], zero_before[MAXCH + 1], query[MAXCH + 1];
+    size_t uniform; /* > 0: the whole utterance in equal chunks of this many samples (modifiers of chunk 0 apply to all; a query follows every 16th chunk) */
 } plan_t;
 
 static void
@@ -73,6 +74,10 @@ plan_desc(const plan_t *p, char *buf, size_t n)
 {
     size_t o = snprintf(buf, n, "audio=%zu gram=%d plan:", N, GRAM), start = 0;
     int i;
+    if (p->uniform) {
+        snprintf(buf + o, n - o, " uniform=%zu%s%s", p->uniform, p->isfloat[0] ? ":float" : "", p->query[0] & Q_HYP ? ":hyp" : "");
+        return;
+    }
     for (i = 0; i <= p->ncut; i++) {
         size_t end = i < p->ncut ? p->cut[i] : N;
         o += snprintf(buf + o, n - o, " %s[%zu,%zu)%s%s%s%s%s%s", p->zero_before[i] ? "zero+" : "", start, end, p->nosearch[i] ? ":nosearch" : "",
@@ -90,6 +95,12 @@ plan_parse(const char *s, plan_t *p)
     if (!q)
         return -1;
     q += 5;
+    if (strncmp(q, " uniform=", 9) == 0) {
+        p->uniform = (size_t)atol(q + 9);
+        p->isfloat[0] = strstr(q, ":float") != NULL;
+        p->query[0] = strstr(q, ":hyp") ? Q_HYP : 0;
+        return p->uniform > 0 ? 0 : -1;
+    }
     while (*q) {
         size_t a, b;
         int i = p->ncut;
@@ -193,7 +204,23 @@ run_plan(const plan_t *p, digest_t *g, const char *cd)
     }
     NFEAT_HASH = 0;
     RECORD_FEAT = 1;
-    for (i = 0; i <= p->ncut; i++) {
+    if (p->uniform) {
+        int k = 0;
+        for (start = 0; start < N; start += p->uniform, k++) {
+            size_t len = N - start < p->uniform ? N - start : p->uniform;
+            rc = p->isfloat[0] ? decoder_process_float32(D, AUDF + start, len, 0, 0) : decoder_process_int16(D, AUD + start, len, 0, 0);
+            if (rc < 0)
+                goto procfail;
+            acc += rc;
+            if ((p->query[0] & Q_HYP) && k % 16 == 15) {
+                int32 sc;
+                RECORD_FEAT = 0;
+                (void)decoder_hyp(D, &sc);
+                RECORD_FEAT = 1;
+            }
+        }
+    }
+    for (i = 0; !p->uniform && i <= p->ncut; i++) {
         size_t end = i < p->ncut ? p->cut[i] : N;
         if (p->zero_before[i]) {
             rc = decoder_process_int16(D, AUD + start, 0, 0, 0);
@@ -275,7 +302,7 @@ compare(const digest_t *g, const char *cd)
 }
 
 /* ---------- plan enumeration ---------- */
-static size_t MENU[40];
+static size_t MENU[48];
 static int NMENU;
 static plan_t *PLANS;
 static long NPLANS, PLANCAP;
@@ -342,8 +369,19 @@ build_menu(const char *kind)
     static const long full[] = { 1, 2, 159, 160, 161, 409, 410, 411, 570, 571, 480, 1119, 1120, 1121, 128 * 160 - 1, 128 * 160, 128 * 160 + 1, 128 * 160 + 410,
                                  256 * 160 - 1, 256 * 160, 256 * 160 + 1, 256 * 160 + 410, -1 /* N-1 */, -2 /* N/2 */ };
     static const long small[] = { 1, 160, 409, 410, 411, 571, 1120, 128 * 160, 128 * 160 + 1, 256 * 160, -1, -2 };
-    const long *m = strcmp(kind, "small") == 0 ? small : full;
+    /* "frames": the smallest sample count that completes exactly f cepstral frames (410 + (f-1)*160), for every f around
+     * the sizes of the cepstral ring and of the feature buffer (128, growing by doubling) and the dynamic-feature window */
+    static long frames[40];
+    const long *m = strcmp(kind, "small") == 0 ? small : strcmp(kind, "frames") == 0 ? frames : full;
     int n = strcmp(kind, "small") == 0 ? (int)(sizeof small / sizeof *small) : (int)(sizeof full / sizeof *full), i, k = 0;
+    if (m == frames) {
+        int f;
+        n = 0;
+        for (f = 124; f <= 136; f++)
+            frames[n++] = 410 + (f - 1) * 160;
+        for (f = 252; f <= 264; f++)
+            frames[n++] = 410 + (f - 1) * 160;
+    }
     for (i = 0; i < n; i++) {
         long v = m[i] == -1 ? (long)N - 1 : m[i] == -2 ? (long)N / 2 : m[i];
         int j, dup = 0;
@@ -373,7 +411,7 @@ run_index(long long idx, void *arg)
         return -1;
     if (compare(&g, cd) < 0)
         return -1;
-    return PLANS[idx].ncut > 0 || idx > 0;
+    return PLANS[idx].ncut > 0 || PLANS[idx].uniform > 0 || idx > 0;
 }
 
 int
@@ -483,6 +521,22 @@ main(int argc, char **argv)
             e.cut[0] = c;
             add_plan(&e);
         }
+    }
+    if (atoi(mc_arg(argc, argv, "--uniform", "0"))) {
+        static const size_t sizes[] = { 1, 80, 159, 160, 161, 320, 400, 512, 1024, 2048, 4096, 8192 };
+        size_t k;
+        int v;
+        for (k = 0; k < sizeof sizes / sizeof *sizes; k++)
+            for (v = 0; v < 4; v++) {
+                plan_t e;
+                if (sizes[k] == 1 && v)
+                    continue;
+                memset(&e, 0, sizeof e);
+                e.uniform = sizes[k];
+                e.isfloat[0] = v & 1;
+                e.query[0] = v & 2 ? Q_HYP : 0;
+                add_plan(&e);
+            }
     }
     mc_sample("audio %d (%zu samples), grammar %d, %d menu points, up to %d deviations: %ld plans; one-call reference: %.300s", audio, N, GRAM, NMENU, dev, NPLANS,
               REF.text);
